@@ -328,20 +328,22 @@ impl FileHasher<'_> {
         // Transformed file may have a different length, so we cannot use stream_hash progress
         // reporting, as it would report progress of the transformed stream. Instead we advance
         // progress after doing the full file.
+        // The transformed data may be also longer than the original file, so read until EOF.
+        let max_len = FileLen::MAX;
         let hash = match self.algorithm {
-            HashFn::Metro => stream_hash::<MetroHash128>(stream, chunk.len, buf_len, |_| {}),
+            HashFn::Metro => stream_hash::<MetroHash128>(stream, max_len, buf_len, |_| {}),
             #[cfg(feature = "xxhash")]
-            HashFn::Xxhash => stream_hash::<Xxh3>(stream, chunk.len, buf_len, |_| {}),
+            HashFn::Xxhash => stream_hash::<Xxh3>(stream, max_len, buf_len, |_| {}),
             #[cfg(feature = "blake3")]
-            HashFn::Blake3 => stream_hash::<blake3::Hasher>(stream, chunk.len, buf_len, |_| {}),
+            HashFn::Blake3 => stream_hash::<blake3::Hasher>(stream, max_len, buf_len, |_| {}),
             #[cfg(feature = "sha2")]
-            HashFn::Sha256 => stream_hash::<Sha256>(stream, chunk.len, buf_len, |_| {}),
+            HashFn::Sha256 => stream_hash::<Sha256>(stream, max_len, buf_len, |_| {}),
             #[cfg(feature = "sha2")]
-            HashFn::Sha512 => stream_hash::<Sha512>(stream, chunk.len, buf_len, |_| {}),
+            HashFn::Sha512 => stream_hash::<Sha512>(stream, max_len, buf_len, |_| {}),
             #[cfg(feature = "sha3")]
-            HashFn::Sha3_256 => stream_hash::<Sha3_256>(stream, chunk.len, buf_len, |_| {}),
+            HashFn::Sha3_256 => stream_hash::<Sha3_256>(stream, max_len, buf_len, |_| {}),
             #[cfg(feature = "sha3")]
-            HashFn::Sha3_512 => stream_hash::<Sha3_512>(stream, chunk.len, buf_len, |_| {}),
+            HashFn::Sha3_512 => stream_hash::<Sha3_512>(stream, max_len, buf_len, |_| {}),
         };
         progress(chunk.len.0 as usize);
 
